@@ -365,9 +365,12 @@ def main(prop, tier, seed, replay=None):
     known = open_signatures(prop.id)
     _PROP, _KNOWN = prop, set(known)
     try:
-        from . import wire, httpref
+        from . import wire, httpref, utf8ref, deflateref, refmodel
         wire.selftest()
         httpref.selftest()
+        utf8ref.selftest()
+        deflateref.selftest()
+        refmodel.selftest()
         prop.selftest()
     except Exception:
         sys.stderr.write("HARNESS ERROR: self-test failed\n" + traceback.format_exc())
